@@ -1316,7 +1316,7 @@ func (m *Memberlist) deadNode(d *dead) {
 // state transfer
 func (m *Memberlist) mergeState(remote []pushNodeState) {
 	for _, r := range remote {
-		m.vt("merge.entry", r.Name, int(r.State))
+		m.vt("merge.entry", r)
 		switch r.State {
 		case StateAlive:
 			a := alive{
